@@ -85,6 +85,16 @@ def exec_for(ex, s, env):
     spec = ex.loop_specs.get(id(s))
     if isinstance(it, VTuple) and not it.items:
         return
+    if isinstance(it, VTuple) and len(it.items) <= UNROLL_MAX and spec is None:
+        for x in it.items:
+            ex.assign(s.target, x, env)
+            try:
+                ex.exec_block(s.body, env)
+            except PyContinue:
+                continue
+            except PyBreak:
+                break
+        return
     if isinstance(it, VConst) and isinstance(it.py, (range, tuple)) and len(it.py) <= UNROLL_MAX and spec is None:
         for x in it.py:
             ex.assign(s.target, VConst(x), env)
@@ -251,6 +261,7 @@ def summarise(ex, s, env, seq):
     stack = [[]]
     contributions = {}   # id(acc) -> (acc, [(cond, V)])
     counts = []
+    returns = []         # (path condition of an iteration that returns, constant returned)
     seen = nobl
     while stack:
         prefix = stack.pop()
@@ -263,13 +274,20 @@ def summarise(ex, s, env, seq):
         old_decide, old_rec = p.decide, getattr(ex, "recorder", None)
         p.decide = sub.decide
         ex.recorder = rec
+        returned = None
         try:
             ex.assign(s.target, elem(i), env2)
             ex.exec_block(s.body, env2)
         except PyContinue:
             pass
-        except (PyReturn, PyRaise, PyBreak):
-            raise Unsupported("return/raise/break inside a loop without a loop contract at %d" % s.lineno)
+        except PyReturn as r_:
+            # `for x in xs: if test(x): return <constant>` in a pure loop: the function returns iff some element passes
+            if not isinstance(r_.v, VConst) or rec:
+                raise Unsupported("return of a computed value / after an accumulation inside a loop without a loop contract at %d"
+                                  % s.lineno)
+            returned = r_.v
+        except (PyRaise, PyBreak):
+            raise Unsupported("raise/break inside a loop without a loop contract at %d" % s.lineno)
         finally:
             p.decide = old_decide
             ex.recorder = old_rec
@@ -283,6 +301,12 @@ def summarise(ex, s, env, seq):
             o.nhyps = npc
         seen = len(p.obls)
         pathcond = conj(p.pc[npc:])
+        if returned is not None:
+            returns.append((pathcond, returned))
+            for idx in range(len(prefix), len(sub.decisions)):
+                for alt in range(1, sub.width[idx]):
+                    stack.append(sub.decisions[:idx] + [alt])
+            continue
         for (acc, val, ncond) in rec:
             cond = conj(p.pc[npc:ncond])
             contributions.setdefault(id(acc), (acc, []))[1].append((cond, val))
@@ -295,6 +319,13 @@ def summarise(ex, s, env, seq):
     for nm in assigned_names(s.body) | assigned_names([ast.Expr(s.target)]):
         if nm in env and not isinstance(env[nm], VAcc):
             env.pop(nm)
+    if returns:
+        if contributions or len(set(repr(v.py) for _, v in returns)) != 1:
+            raise Unsupported("early return mixed with accumulation / different constants in a loop without a loop contract at %d"
+                              % s.lineno)
+        some = EX([INT], lambda j: And(dom(j), disj([z3.substitute(c, (i, j)) for c, _ in returns])))
+        if ex.branch(some, "loop@%d returns" % s.lineno):
+            raise PyReturn(returns[0][1])
     n = seq.n
     for _, (acc, contrib) in contributions.items():
         cur = acc.cur
@@ -336,8 +367,28 @@ def summarise(ex, s, env, seq):
                 acc.cur = VList(n, lambda kk, val=val: vsubst(val, i, kk))
                 if isinstance(seq, VRowList):
                     acc.cur.origin = seq
+            elif all(ids.count(id(acc)) <= 1 for _, ids in counts):
+                # appended at most once per iteration, under a condition: what a filtered comprehension builds;
+                # known through membership only (order and multiplicity are not tracked)
+                vals = [v for _, v in contrib]
+                ks = set(kind_of(v.val) if isinstance(v, VOpt) else kind_of(v) for v in vals)
+                if len(ks) != 1 or list(ks)[0] not in ("str", "int", "real", "bool", "json"):
+                    raise Unsupported("conditional append of structured values in a loop at %d" % s.lineno)
+                k = list(ks)[0]
+
+                def contains(y, contrib=contrib, k=k):
+                    def one(cond, val, j):
+                        c = z3.substitute(cond, (i, j))
+                        if isinstance(val, VOpt):
+                            return And(c, Not(z3.substitute(val.is_none, (i, j))), z3.substitute(to_term(val.val, k), (i, j)) == y)
+                        return And(c, z3.substitute(to_term(val, k), (i, j)) == y)
+                    return EX([INT], lambda j: And(dom(j), disj([one(c, v, j) for c, v in contrib])))
+                nonempty = EX([INT], lambda j: And(dom(j), disj([z3.substitute(c, (i, j)) for c, _ in contrib])))
+                bag = VBag(k, contains, nonempty)
+                bag.bound = n
+                acc.cur = bag
             else:
-                raise Unsupported("conditional append in a loop at %d" % s.lineno)
+                raise Unsupported("several appends per iteration in a loop at %d" % s.lineno)
         else:
             raise Unsupported("accumulator %r" % (cur,))
 
